@@ -339,3 +339,80 @@ pub fn c10_mutex(cfg: &J) {
         mc::violation("mutex-sink-counted-twice", format!("the closed aggregate holds {} but all inputs sum to {all}", c.0));
     }
 }
+
+// ------------------------------------------------------------------------------------------
+// C11 concurrency clause: SharedHistogram under concurrent add_value (first records included)
+
+use metrique_aggregation::histogram::{AtomicExponentialAggregationStrategy, SharedHistogram};
+
+struct CountObs {
+    occurrences: u64,
+    values: Vec<f64>,
+}
+struct CO<'c>(&'c mut CountObs);
+impl ValueWriter for CO<'_> {
+    fn string(self, _v: &str) {}
+    fn metric<'a>(self, distribution: impl IntoIterator<Item = Observation>, _unit: Unit, _d: impl IntoIterator<Item = (&'a str, &'a str)>, _f: MetricFlags<'_>) {
+        for o in distribution {
+            match o {
+                Observation::Repeated { total, occurrences } => {
+                    self.0.occurrences += occurrences;
+                    if occurrences > 0 {
+                        self.0.values.push(total / occurrences as f64);
+                    }
+                }
+                Observation::Unsigned(v) => {
+                    self.0.occurrences += 1;
+                    self.0.values.push(v as f64);
+                }
+                Observation::Floating(v) => {
+                    self.0.occurrences += 1;
+                    self.0.values.push(v);
+                }
+                _ => {}
+            }
+        }
+    }
+    fn error(self, _e: ValidationError) {}
+}
+
+/// cfg: adders: [[v, ...], ...] values recorded by each thread into ONE fresh SharedHistogram
+/// (so the very first records race); drain_midway: main closes a clone-free snapshot? (no: the
+/// histogram is closed after the join). Every recorded observation must be counted exactly once
+/// and be reported within 6.25%.
+pub fn c11_shared(cfg: &J) {
+    let adders: Vec<Vec<u64>> = cfg["adders"].as_array().unwrap().iter().map(|m| m.as_array().unwrap().iter().map(|v| v.as_u64().unwrap()).collect()).collect();
+    let h: LArc<SharedHistogram<u64, AtomicExponentialAggregationStrategy>> = LArc::new(SharedHistogram::new(AtomicExponentialAggregationStrategy::new()));
+    let threads: Vec<_> = adders
+        .iter()
+        .cloned()
+        .map(|vals| {
+            let h = h.clone();
+            thread::spawn(move || {
+                for v in vals {
+                    h.add_value(v);
+                }
+            })
+        })
+        .collect();
+    for t in threads {
+        t.join().unwrap();
+    }
+    let h = match LArc::try_unwrap(h) {
+        Ok(h) => h,
+        Err(_) => panic!("HARNESS: histogram still shared after join"),
+    };
+    let closed = h.close();
+    let mut c = CountObs { occurrences: 0, values: Vec::new() };
+    metrique_writer_core::Value::write(&closed, CO(&mut c));
+    let want: Vec<u64> = adders.iter().flatten().copied().collect();
+    mc::outcome(format!("{} occurrences {:?}", c.occurrences, c.values));
+    if c.occurrences != want.len() as u64 {
+        mc::violation("shared-histogram-count-not-conserved", format!("{} observations were recorded concurrently but the closed histogram counts {} (values {:?})", want.len(), c.occurrences, c.values));
+    }
+    for w in &want {
+        if !c.values.iter().any(|r| (r - *w as f64).abs() <= *w as f64 * 0.0625 + 1.0 / 1024.0) {
+            mc::violation("shared-histogram-value-lost", format!("recorded {w} but no reported value is within 6.25%: {:?}", c.values));
+        }
+    }
+}
